@@ -1,10 +1,12 @@
 """debug helper: python3 vlib/show.py K1 [substring]  -- dump MIR facts of matching functions"""
 import sys, os
 sys.path.insert(0, os.path.dirname(os.path.dirname(os.path.abspath(__file__))))
-from vlib import extract, mir
+from vlib import extract, mir, inline
 cfg = sys.argv[1]
 facts, meta = extract.extract(cfg)
 F = mir.Facts(cfg, facts, meta)
+if os.environ.get("SHOW_INLINE"):      # SHOW_INLINE=1: the view the rules see
+    F = inline.InlinedFacts(F)
 if len(sys.argv) < 3:
     for p in sorted(F.fns): print(p, F.fns[p].kind, len(F.fns[p].blocks))
 else:
